@@ -1,5 +1,6 @@
 import PybtexModel.Drv.Json
 import PybtexModel.Model.NameFormat
+import PybtexModel.Spec.NameFormat
 open Lean
 namespace Pybtex.Drv.C11
 
@@ -24,7 +25,13 @@ def fmtname (j : Json) : Except String Json := do
   let parsed := match parseFormat fmt with
     | .error e => obj [("error", Json.str (errName e))]
     | .ok ps => arr (ps.map partJ)
-  pure (obj [("out", out), ("parsed", parsed)])
+  -- the independent reference (`Spec/NameFormat.lean`); the oracle compares `spec.str` with the implementation
+  let spec := match Spec.formatName name fmt with
+    | .ok s => obj [("str", strToJson s)]
+    | .malformed => obj [("malformed", Json.bool true)]
+    | .tooDeep => obj [("too_deep", Json.bool true)]
+  pure (obj [("out", out), ("parsed", parsed), ("spec", spec),
+             ("wellformed", Json.bool (Spec.wellformed fmt))])
 
 def handlers : List (String × (Json → Except String Json)) := [("fmtname", fmtname)]
 
